@@ -517,6 +517,26 @@ def emit_l2(tree):
           'Definition tree_l2_norm_squared (pytree : list Q) : Q := tree_l2_squared pytree.')
 
 
+def emit_process_independent(tree):
+  """WAVE5 item 4 (fail-closed): nothing in this file may depend on the interpreter process: no hash() / id() calls,
+  no time / uuid / os.environ / random / np.random use."""
+  bad = []
+  for n in ast.walk(tree):
+    if isinstance(n, ast.Call) and isinstance(n.func, ast.Name) and n.func.id in ('hash', 'id'):
+      bad.append(f'{n.func.id}() at line {n.lineno}')
+    if isinstance(n, ast.Attribute):
+      d = src(n)
+      if d.split('.')[0] in ('time', 'uuid', 'random') or d.startswith(('os.environ', 'np.random', 'numpy.random', 'os.getpid')):
+        bad.append(f'{d} at line {n.lineno}')
+    if isinstance(n, (ast.Import, ast.ImportFrom)):
+      names = [a.name for a in n.names] + ([n.module] if isinstance(n, ast.ImportFrom) and n.module else [])
+      if any(x.split('.')[0] in ('time', 'uuid', 'random') for x in names):
+        bad.append(f'import of {names} at line {n.lineno}')
+  if bad:
+    raise Unsupported('process-dependent construct: ' + '; '.join(bad[:3]))
+  return 'Definition process_independent : bool := true.'
+
+
 PRE = ('From Coq Require Import QArith.\n'
        'From FV Require Import Common.CMonoid Common.NanQ Common.QVec Common.WMean gen.Gen_tree_util Model.C01_Model.\n'
        'Local Open Scope Q_scope.\n')
@@ -555,6 +575,7 @@ MODULES = {
             emit_fedavg_like_apply('federated_averaging'),
             emit_init('federated_averaging', 'server_optimizer', 'OS', 'server_optimizer_init'),
             emit_wiring('federated_averaging', ['train_for_each_client = create_train_for_each_client(grad_fn, client_optimizer)'], 'fed_avg_wiring'),
+            emit_process_independent,
         ],
     },
     'Gen_fed_prox': {
@@ -567,6 +588,7 @@ MODULES = {
             emit_prox_penalty,
             emit_wiring('fed_prox', ['grad_fn = jax.grad(fed_prox_loss)',
                                      'train_for_each_client = create_train_for_each_client(grad_fn, client_optimizer)'], 'fed_prox_wiring'),
+            emit_process_independent,
         ],
     },
     'Gen_mime': {
@@ -580,6 +602,7 @@ MODULES = {
             lambda tree: 'Definition grads_for_each_client := g_grads_for_each_client.\nDefinition train_for_each_client := t_train_for_each_client.',
             emit_mime_apply('mime', MIME_RECORDS, 'grads_for_each_client'),
             emit_init('mime', 'base_optimizer', 'S', 'client_optimizer_init'),
+            emit_process_independent,
         ],
     },
     'Gen_mime_lite': {
@@ -593,6 +616,7 @@ MODULES = {
                           'Variable grads_for_each_client : list Q -> list (Z * list PB * K) -> list (Z * (list NanQ.t * NanQ.t)).'),
             emit_mime_apply('mime_lite', MIMELITE_RECORDS, 'grads_for_each_client'),
             emit_init('mime_lite', 'base_optimizer', 'S', 'client_optimizer_init'),
+            emit_process_independent,
         ],
     },
     'Gen_hyp_cluster': {
@@ -602,18 +626,19 @@ MODULES = {
         'items': [emit_hc_trainer, emit_hc_expectation, emit_hc_apply,
                   emit_wiring('hyp_cluster', ['evaluator = models.AverageLossEvaluator(per_example_loss, regularizer)',
                                               'trainer = ClientDeltaTrainer(models.grad(per_example_loss, regularizer), client_optimizer)'],
-                              'hyp_cluster_wiring')],
+                              'hyp_cluster_wiring'), emit_process_independent],
     },
     'Gen_tree_l2': {
         'src': 'fedjax/core/tree_util.py',
         'preamble': 'From Coq Require Import QArith.\nFrom FV Require Import Common.QVec.\nLocal Open Scope Q_scope.\n',
-        'items': [emit_l2],
+        'items': [emit_l2, emit_process_independent],
     },
     'Gen_apfl': {
         'src': ALG + 'apfl.py', 'preamble': PRE + section(G3), 'postamble': 'End Gen.\n',
         'items': [emit_apfl_program, emit_apfl_apply,
                   emit_init('adaptive_personalized_federated_learning', 'server_optimizer', 'OS', 'server_optimizer_init'),
                   emit_wiring('adaptive_personalized_federated_learning',
-                              ['train_for_each_client = create_train_for_each_client(grad_fn, client_optimizer)'], 'apfl_wiring')],
+                              ['train_for_each_client = create_train_for_each_client(grad_fn, client_optimizer)'], 'apfl_wiring'),
+                  emit_process_independent],
     },
 }
